@@ -198,6 +198,7 @@ type refFlow struct {
 	ret     bool // a return is unwinding to its function
 	retSt   int
 	last    int // $?
+	ivar    string // the variable of the for-in loops
 }
 
 func (s *refFlow) unwinding() bool {
@@ -326,6 +327,8 @@ func (s *refFlow) run1(n *flowNode, ignore bool) int {
 		st := 0
 		for i := 0; i < 2; i++ {
 			switch n.kind {
+			case flowFor:
+				s.ivar = string(rune('1' + i))
 			case flowWhile:
 				s.last = 0 // the condition succeeded
 			case flowCFor:
@@ -355,7 +358,7 @@ func (s *refFlow) run1(n *flowNode, ignore bool) int {
 			s.outside = true
 			return 0
 		}
-		c := &refFlow{out: s.out, errexit: s.errexit, inFunc: s.inFunc, last: s.last}
+		c := &refFlow{out: s.out, errexit: s.errexit, inFunc: s.inFunc, last: s.last, ivar: s.ivar}
 		st := c.run(n.kids[0], ignore)
 		s.out = c.out
 		if c.ret { // a return ends the subshell
@@ -395,7 +398,7 @@ func refFlowProgram(n *flowNode, errexit bool, trap int) (src, out string, statu
 	}
 	count := 0
 	src += n.defs(&count)
-	src += n.text() + "\necho end $?\n"
+	src += n.text() + "\necho end $? i=$i\n"
 	s := &refFlow{errexit: errexit, errTrap: trap == 1}
 	st := s.run(n, false)
 	if s.outside {
@@ -408,7 +411,7 @@ func refFlowProgram(n *flowNode, errexit bool, trap int) (src, out string, statu
 	if s.exited {
 		return src, string(s.out) + tail, s.status, true
 	}
-	return src, string(s.out) + "end " + string(rune('0'+st)) + "\n" + tail, 0, true
+	return src, string(s.out) + "end " + string(rune('0'+st)) + " i=" + s.ivar + "\n" + tail, 0, true
 }
 
 // Verif_c26_flow: every command tree of up to size nodes, with and without
